@@ -4,6 +4,7 @@ import (
 	"encoding/binary"
 	"fmt"
 	"path/filepath"
+	"sort"
 
 	"verifsim/ref"
 )
@@ -61,9 +62,26 @@ func (w *World) hostileRecoveryKind(r *Run, kind string) string {
 			}
 		}
 		var exps []int
-		for e := 0; e < w.R+4 && len(exps) < 1+t.Draw(3, "nstale"); e++ {
-			if !used[e] {
-				exps = append(exps, e)
+		if t.Bool(1, 2, "stale-exponents-anywhere") {
+			// any of the free exponents, not the lowest ones: a gap may
+			// remain below the stale blocks
+			var free []int
+			for e := 0; e < w.R+4; e++ {
+				if !used[e] {
+					free = append(free, e)
+				}
+			}
+			for k := 1 + t.Draw(3, "nstale"); k > 0 && len(free) > 0; k-- {
+				j := t.Draw(len(free), "free")
+				exps = append(exps, free[j])
+				free = append(free[:j], free[j+1:]...)
+			}
+			sort.Ints(exps)
+		} else {
+			for e := 0; e < w.R+4 && len(exps) < 1+t.Draw(3, "nstale"); e++ {
+				if !used[e] {
+					exps = append(exps, e)
+				}
 			}
 		}
 		if len(exps) == 0 {
